@@ -8,6 +8,7 @@
 //!   Y <pkt> <off> <val|*> ; V .. ; O ..  the session with byte <off> of packet <pkt> replaced by <val>
 //!                                        (`*`: all 256 values, one fresh receiver pair per value)
 //!   S <pkt|all> <len> ; V .. ; O ..      the session with the symbol of one / every object packet resized to <len> bytes
+//!   X <cp> <keep> ; V .. ; O ..          after every object packet a copy with Codepoint <cp>, cut <keep> bytes after the header
 //!   Z <seed> <nmut> ; V .. ; O ..        seeded field-aware mutation sequence applied to the session
 //!   G <hex> <hex> ...                    explicit datagram sequence (replays, minimised failures)
 //! Output tokens:
@@ -1111,6 +1112,30 @@ fn expand(input: &str) -> Option<(Vec<Vec<u8>>, Vec<bool>, Vec<String>)> {
             }
             Some((v, same, log))
         }
+        "X" => {
+            // codec cross-over: after every object packet, a copy of it whose Codepoint is replaced by <cp>
+            // and which is cut <keep> bytes after the LCT header (the object's OTI is known by then, so the
+            // payload id is read with the OBJECT's scheme, not with the packet's)
+            let g = session_of(&secs)?;
+            let cp: u8 = head.get(1)?.parse().ok()?;
+            let keep: usize = head.get(2)?.parse().ok()?;
+            let mut v: Vec<Vec<u8>> = Vec::new();
+            let mut same: Vec<bool> = Vec::new();
+            for d in g.iter() {
+                v.push(d.clone());
+                same.push(true);
+                if let Some(l) = layout(d) {
+                    let is_obj = matches!(catch(|| flute::core::alc::parse_alc_pkt(d)), Some(Ok(ref p)) if p.lct.toi != 0);
+                    if is_obj && d.len() >= l.hdr_len {
+                        let mut x = d[..(l.hdr_len + keep).min(d.len())].to_vec();
+                        x[3] = cp;
+                        v.push(x);
+                        same.push(false);
+                    }
+                }
+            }
+            Some((v, same, log))
+        }
         "Z" => {
             let g = session_of(&secs)?;
             let seed: u64 = head.get(1)?.parse().ok()?;
@@ -1195,12 +1220,12 @@ pub fn eval(input: &str) -> String {
     }
     let (seq, same, log) = match catch(|| expand(input)) {
         Some(Some(x)) => x,
-        Some(None) => return if secs[0][0] == "Y" || secs[0][0] == "Z" || secs[0][0] == "S" { "NOSESSION".into() } else { "BAD".into() },
+        Some(None) => return if ["Y", "Z", "S", "X"].contains(&secs[0][0]) { "NOSESSION".into() } else { "BAD".into() },
         None => return "GENPANIC".into(),
     };
     let refs: Vec<&[u8]> = seq.iter().map(|d| d.as_slice()).collect();
     let mut out = run_sequence(&refs);
-    if secs[0][0] == "Y" || secs[0][0] == "Z" || secs[0][0] == "S" {
+    if ["Y", "Z", "S", "X"].contains(&secs[0][0]) {
         let ds: Vec<String> = seq.iter().zip(same.iter()).map(|(d, s)| if *s { "=".to_string() } else { hex(d) }).collect();
         out.push_str(&format!(" D={}", if ds.is_empty() { "-".to_string() } else { ds.join(",") }));
         if !log.is_empty() {
@@ -1329,6 +1354,16 @@ fn gen(args: &Args, emit: &mut dyn FnMut(String)) {
             for len in [0, 1, e.saturating_sub(1), e + 1, 2 * e] {
                 if mine(&mut idx) {
                     emit(format!("S {} {} ; {}", t, len, spec));
+                }
+            }
+        }
+    }
+    // 2c. codec cross-over: Codepoint of another scheme on a packet cut 0..9 bytes after its header
+    for spec in &corpus {
+        for cp in [0u8, 1, 2, 5, 6, 129] {
+            for keep in [0usize, 1, 3, 4, 5, 7, 8, 9] {
+                if mine(&mut idx) {
+                    emit(format!("X {} {} ; {}", cp, keep, spec));
                 }
             }
         }
